@@ -653,6 +653,8 @@ pub fn ctx_op(k: u8, c: &Val) -> Val {
 pub enum RecStyle {
     Func,
     DeclareDefine,
+    /// declare, clone the handle BEFORE define, define, drop the declaring handle, keep the early clone
+    EarlyClone,
 }
 
 pub struct Bld<'s, I: Kind<'s>, R: Er<'s, I>> {
@@ -1199,6 +1201,24 @@ impl<'s, I: Kind<'s>, R: Er<'s, I>> Bld<'s, I, R> {
                         }
                     }
                     r.boxed()
+                }
+                RecStyle::EarlyClone => {
+                    let id = *id;
+                    let mut r: Recursive<Indirect<'s, 's, I, Val, Ex<R>>> = Recursive::declare();
+                    let early = r.clone();
+                    let prev = self.recs.insert(id, early.clone().boxed());
+                    let b = self.build(body);
+                    r.define(b);
+                    drop(r);
+                    match prev {
+                        Some(x) => {
+                            self.recs.insert(id, x);
+                        }
+                        None => {
+                            self.recs.remove(&id);
+                        }
+                    }
+                    early.boxed()
                 }
             },
             RecRef(id) => self.recs.get(id).expect("unbound RecRef").clone(),
